@@ -5,6 +5,7 @@ import (
 	"errors"
 	"fmt"
 	"reflect"
+	"regexp"
 	"strings"
 	"testing"
 	"unicode/utf8"
@@ -20,7 +21,7 @@ import (
 
 func init() {
 	pbt.Describe("(well-formed files also receive token-level mutations: a line cut short after any token, a token dropped, duplicated, swapped or taken from another line) total/positions: arbitrary byte strings (rapid byte slices; token soup with hostile fragments: invalid UTF-8, unterminated quotes, backslash at EOF, /* comments, stray brackets, NUL, lone CR, CRLF, long lines) and well-formed files: Parse, ParseLax, ParseWork, ModulePath must return (panics and hangs are caught by the harness), no error text contains 'internal error', and every position in errors and in the syntax tree (through hook VerifParseSyntax, raw tokens) is recomputed from the bytes: Byte in range, Line = 1+newlines before, LineRune = 1+runes since the last newline, the input at Byte starts with the token/paren/comment described, the tokens of a line are exactly the non-blank pieces between Start and End; directive-level errors point at the Start of a statement. strictlax: modgen files, and the same files with unknown directives, unknown blocks and malformed main-module-only directives inserted: strict-accepted => lax-accepted with equal module/go/require/retract values; insertions make strict fail and leave the lax values unchanged. modulepath: strict-accepted files whose module directive is a single line naming a valid import path: ModulePath == parsed path (the one known shape, a block line whose first token is the bare word 'module', is excluded by construction and re-executed as a regression). Non-trivial: a syntax tree with >=2 statements, or an error beyond byte 0; strictlax: >=1 insertion; modulepath: module path present. Distinct by JSON rendering.",
-		"the only error-text observation is the substring 'internal error' (the property names it)",
+		"the only error-text observation is the pattern 'internal [word ]error' (the property names it; the code says internal error, internal lexer error, internal parse error)",
 		"a parser that needs more than the watchdog period is reported as a hang",
 		"pathref import-path validity (see C06)")
 }
@@ -28,6 +29,8 @@ func init() {
 func TestMain(m *testing.M) { pbt.Main(m) }
 
 type textCase struct{ Text string }
+
+var internalErr = regexp.MustCompile(`internal (\w+ )?error`)
 
 // ---------------------------------------------------------------------------
 // generators
@@ -314,7 +317,9 @@ func checkErrPositions(input string, err error, what string, starts map[modfile.
 	if err == nil {
 		return nil
 	}
-	if strings.Contains(err.Error(), "internal error") {
+	// the code has three self-diagnosed conditions: "internal error: ..." (a recovered panic),
+	// "internal lexer error: ..." and "internal parse error: ..."
+	if internalErr.MatchString(err.Error()) {
 		return pbt.Failf("internal-error", "%s reports an internal error: %v", what, err)
 	}
 	el := errList(err)
